@@ -21,7 +21,7 @@
     r2c x y z  position_relative_to_cartesian                    | err:value (not 3 numbers)
     c2r x y z  position_cartesian_to_relative                    | err:value
     inside x y z    inside(inclusive=True) inside(inclusive=False) margin
-    outside x y z   outside(inclusive=True) outside(inclusive=False)
+    outside x y z   outside(inclusive=True) outside(inclusive=False) margin
     abcres a b c ca cb cg ly lz   residuals ly² - (b²-xy²), lz² - (c²-xz²-yz²)  (hypotheses of abc_gram)
 -/
 import Atomman.C01
@@ -112,7 +112,8 @@ def stepC01 (st : Box Rat) (toks : List String) : Box Rat × String :=
     | some [x, y, z] =>
       if st.vects.det = 0 then (st, err "value") else
       let p : V3 Rat := ⟨x, y, z⟩
-      (st, showBool (outside st Lams.ones p true) ++ " " ++ showBool (outside st Lams.ones p false))
+      (st, showBool (outside st Lams.ones p true) ++ " " ++ showBool (outside st Lams.ones p false) ++ " "
+        ++ showRat (faceMargin (st.cartToRel p)))
     | _ => (st, err "format")
   | _ => (st, err "op")
 
